@@ -53,6 +53,13 @@ def showState (g : List Scope) (k : Nat) (st : State) : List Str :=
     let t := getTabs st m.name
     showNat k ++ ['|'] ++ m.name ++ ['|'] ++ showTable t.all ++ ['|'] ++ showTable t.pub)
 
+/-- `root:host:name` triples (pre-order) naming the scopes of `all` that are contained procedures -/
+def nestedOf (all : List Scope) (spec : Str) : List Nested :=
+  (words spec).filterMap (fun w =>
+    match splitCh ':' w [] with
+    | [r, h, n] => (all.find? (fun s => s.name == n)).map (fun s => { root := r, host := h, scope := s })
+    | _ => none)
+
 end C06D
 open C06D
 
@@ -65,6 +72,16 @@ def dispatchC06 : List Str → Option (List Str)
         let g := parseScopes (cmd == "c06.runfixed".toList) (fs.length + 1) fs
         let o := words order
         some ("ok".toList :: ([0, 1, 2, 3].flatMap (fun k => showState g k (run k g o))))
+      | _ => some ["bad-request".toList]
+    else if cmd == "c06.runn".toList || cmd == "c06.runnfixed".toList then
+      -- c06.runn <order> <root:host:name ...> <scope fields ...> : as c06.run, with contained procedures
+      match args with
+      | order :: nspec :: fs =>
+        let all := parseScopes (cmd == "c06.runnfixed".toList) (fs.length + 1) fs
+        let ns := nestedOf all nspec
+        let g := all.filter (fun s => !(ns.any (fun x => x.scope.name == s.name)))
+        let o := words order
+        some ("ok".toList :: ([0, 1, 2, 3].flatMap (fun k => showState (g ++ ns.map (·.scope)) k (runN k g ns o))))
       | _ => some ["bad-request".toList]
     else if cmd == "c06.parse".toList then
       -- c06.parse <rest> : only flag, items
